@@ -48,7 +48,7 @@ func (res DescriptionRes) Size() uint {
 
 // Pack assembles the Description Response structure in the given buffer.
 func (res *DescriptionRes) Pack(buffer []byte) {
-	util.PackSome(buffer, res.DeviceHardware, res.SupportedServices)
+	util.PackSome(buffer, &res.DeviceHardware, &res.SupportedServices)
 }
 
 // Unpack parses the given service payload in order to initialize the Description Response.
